@@ -4,6 +4,8 @@
   seed.py verify <src-dir> <id> [--dest REL] [--cmd 'go test ...']   confirm a candidate in a scratch worktree and keep it as seeded/<id>/
   seed.py run <id> [Cxx ...]                                         apply seeded/<id>/patch.diff to /repo, run the checks, undo
   seed.py runall [--only-missing]                                    run every kept seed against the property it breaks
+  seed.py runiso <slot> <id> [Cxx ...]                               the same on a private copy: /root/seedrun/<slot>/verif (rsync of /verif) checks a scratch
+                                                                     worktree /root/seedrun/<slot>/repo with the patch applied (VERIF_REPO), so /repo and /verif stay untouched
 """
 import json, os, re, shutil, subprocess, sys, time
 
@@ -158,6 +160,57 @@ def run(sid, props):
     return 0
 
 
+def runiso(slot, sid, props):
+    d = os.path.join(V, 'seeded', sid)
+    meta = json.load(open(os.path.join(d, 'meta.json')))
+    if not props:
+        props = [meta['property']]
+    base = '/root/seedrun/' + slot
+    v2, r2 = base + '/verif', base + '/repo'
+    os.makedirs(base, exist_ok=True)
+    sh(['rsync', '-a', '--delete', '--exclude', '.git', '--exclude', 'build/runs', '--exclude', 'build/replay', V + '/', v2 + '/'])
+    sh(['git', '-C', REPO, 'worktree', 'remove', '--force', r2])
+    shutil.rmtree(r2, ignore_errors=True)
+    sh(['git', '-C', REPO, 'worktree', 'prune'])
+    rc, o = sh(['git', '-C', REPO, 'worktree', 'add', '-q', '--detach', r2, 'HEAD'])
+    if rc != 0:
+        print(o)
+        return 2
+    results = {}
+    try:
+        rc, o = sh(['git', 'apply', os.path.join(d, 'patch.diff')], cwd=r2)
+        if rc != 0:
+            print('patch does not apply:', o)
+            return 2
+        env = dict(ENV, VERIF_REPO=r2)
+        for p in props:
+            t0 = time.time()
+            pr = subprocess.run([os.path.join(v2, 'check'), p, '--tier', 'quick'], cwd=v2, env=env, stdout=subprocess.PIPE, stderr=subprocess.STDOUT, text=True, timeout=3600)
+            rc, o = pr.returncode, pr.stdout
+            viol = [l for l in o.split('\n') if l.startswith('VIOLATION')]
+            detail = None
+            m = re.search(r'replay=(\S+)', viol[0]) if viol else None
+            if m:
+                rp = m.group(1) if os.path.isabs(m.group(1)) else os.path.join(v2, m.group(1))
+                if os.path.exists(rp):
+                    replay = json.load(open(rp))
+                    detail = replay.get('failure') or replay.get('broken')
+            results[p] = {'exit': rc, 'violation_lines': viol, 'wall_s': round(time.time() - t0, 1),
+                          'caught': rc == 1 and bool(viol), 'concrete_input': bool(viol) and 'no-failing-input-found' not in viol[0],
+                          'first_replay': detail, 'how': 'private copy of /verif checking a scratch worktree with the patch applied (VERIF_REPO)'}
+            print(sid, p, 'caught' if results[p]['caught'] else 'MISSED', viol[:1], flush=True)
+            if not results[p]['caught']:
+                open(os.path.join(base, sid + '-' + p + '.log'), 'w').write(o)
+    finally:
+        sh(['git', '-C', REPO, 'worktree', 'remove', '--force', r2])
+        shutil.rmtree(r2, ignore_errors=True)
+    rp = os.path.join(d, 'result.json')
+    old = json.load(open(rp)) if os.path.exists(rp) else {}
+    old.update(results)
+    json.dump(old, open(rp, 'w'), indent=1)
+    return 0
+
+
 def main():
     a = sys.argv[1:]
     if not a:
@@ -175,6 +228,8 @@ def main():
         return verify(a[1], a[2], dest, cmd)
     if a[0] == 'run':
         return run(a[1], a[2:])
+    if a[0] == 'runiso':
+        return runiso(a[1], a[2], a[3:])
     if a[0] == 'runall':
         only = '--only-missing' in a
         for sid in sorted(os.listdir(os.path.join(V, 'seeded'))):
